@@ -220,7 +220,7 @@ func (d *driver) newCall(predictable bool) call {
 		k.gas = []uint64{150000, 300000, 400000}[r.Intn(3)]
 		k.desc = trace.M{"to": "gbranch"}
 	case kk < 7: // menu contracts (straight-line programs over constants: predictable)
-		ci := r.Intn(8)
+		ci := r.Intn(w.NContracts)
 		name := fmt.Sprintf("c%d", ci)
 		ents := make([]string, 0)
 		for e := range w.T.Ops[w.Tid+"_"+name] {
